@@ -58,6 +58,10 @@ func vGenBitmap(p string) (*Bitmap, *vBDesc) {
 		switch {
 		case pat == 4:
 			key = uint16(i)
+		case pat == 5:
+			key = uint16(i + 1)
+		case pat == 6:
+			key = uint16(2 * i)
 		case pat == 1 && i == 0:
 			key = 0
 		case pat == 2 && i == k-1:
